@@ -310,7 +310,7 @@ func propC13(c *ctx) error {
 			cur = func() {} // an unapplied method value: a function
 		}
 		src := sb.String()
-		out := implEval(src, []any{data.g}, nil)
+		out := implEvalStable(src, []any{data.g})
 		res.eval(src, true, J{"src": src})
 		res.count("path_" + kinds)
 		want := "error"
